@@ -476,9 +476,11 @@ class Beam(_Simu):
 
         center = (rho_e_p * area_e_pg * wJ_e_pg * coordo_e_p / mass).sum(axis=(0, 1))
 
-        if not isinstance(self.rho, np.ndarray):
-            diff = np.linalg.norm(center - mesh.center) / np.linalg.norm(center)
-            assert diff < 1e-12
+        areas = [beam.area for beam in self.structure.beams]
+        if not isinstance(self.rho, np.ndarray) and np.ptp(areas) == 0:
+            # uniform density and section: the centre of mass is the centroid of the mesh
+            scale = max(np.linalg.norm(center), np.linalg.norm(np.ptp(mesh.coord, axis=0)))
+            assert np.linalg.norm(center - mesh.center) <= 1e-12 * scale
 
         return center
 
